@@ -17,7 +17,9 @@ RULE = ("histories of registry operations over 3 names, 3 files and a pool of va
 DEFINITE_FLOOR = 0.95
 NAMES = ["a", "b", "c"]
 FILES = ["f1", "f2", "f3"]
-GOOD = ["A{{x}}", "x\n  {{> b}}\ny", "{{#if x}}T{{/if}}", "plain", "{{> b}}!", "L1\nL2{{x}}"]
+GOOD = ["A{{x}}", "x\n  {{> b}}\ny", "{{#if x}}T{{/if}}", "plain", "{{> b}}!", "L1\nL2{{x}}",
+        # sources that END in a tag alone on its indented line (the end of the source is a line end, for every way of registering)
+        "{{#if x}}\ny\n  {{/if}}", "a\n  {{!-- c --}}"]
 BAD = ["{{#if x}}", "{{/each}}", "{{foo 1.}}", "{{"]
 
 
@@ -74,7 +76,11 @@ def apply(op, regs, fs):
     elif k == "set_prevent_indent":
         r.pi = op["v"]
     elif k == "write_file":
-        fs[op["file"]] = op["content"]
+        if "bytes_hex" in op:
+            # raw bytes that are not UTF-8: the file cannot be read as a template source – as good as absent
+            fs.pop(op["file"], None)
+        else:
+            fs[op["file"]] = op["content"]
     elif k == "delete_file":
         fs.pop(op["file"], None)
     elif k == "clone":
@@ -94,6 +100,7 @@ def reduced_alphabet():
         {"op": "set_dev", "reg": 0, "v": True},
         {"op": "set_dev", "reg": 0, "v": False},
         {"op": "write_file", "file": "f1", "content": "F3"},
+        {"op": "write_file", "file": "f1", "bytes_hex": "46ff fe28c3".replace(" ", "")},
         {"op": "delete_file", "file": "f1"},
         {"op": "set_prevent_indent", "reg": 0, "v": True},
         {"op": "reg_string", "reg": 0, "name": "b", "src": "L1\nL2{{x}}"},
@@ -116,6 +123,8 @@ def rand_op(rng, nregs):
         return {"op": k, "reg": reg, "name": rng.pick(NAMES)}
     if k in ("set_dev", "set_prevent_indent"):
         return {"op": k, "reg": reg, "v": rng.chance(0.5)}
+    if k == "write_file" and rng.chance(0.12):
+        return {"op": k, "file": rng.pick(FILES), "bytes_hex": rng.pick(["fffe", "c328", "41ff42", "e28241", "f0288cbc"])}
     if k == "write_file":
         return {"op": k, "file": rng.pick(FILES), "content": rng.pick(["F1{{x}}", "F2\n  {{> b}}\nz", "F3", "{{#bad", "x\n  {{> b}}\ny"])}
     if k == "delete_file":
@@ -190,7 +199,8 @@ def ref_render(name, snap, depth=0):
         if n in stack:
             return ("err", "CannotIncludeSelf") if stack[-1] == n else "loop"
         out = ""
-        table = {"L1\nL2{{x}}": lambda: "L1\nL21", "A{{x}}": lambda: "A1", "{{#if x}}T{{/if}}": lambda: "T", "plain": lambda: "plain", "F1{{x}}": lambda: "F11", "F3": lambda: "F3"}
+        table = {"L1\nL2{{x}}": lambda: "L1\nL21", "A{{x}}": lambda: "A1", "{{#if x}}T{{/if}}": lambda: "T", "plain": lambda: "plain", "F1{{x}}": lambda: "F11", "F3": lambda: "F3",
+                 "{{#if x}}\ny\n  {{/if}}": lambda: "y\n", "a\n  {{!-- c --}}": lambda: "a\n"}
         if src in table:
             return ("ok", table[src]())
         # templates that include a partial
